@@ -21,7 +21,7 @@ PRE = [("'a'", OK), ("Pregex('a')", OK), ("AnyDigit()", OK), ("'a.b'", OK), ("Ei
 PRE_NE = [x for x in PRE if x[0] != 'Pregex()']          # positions where the empty pattern has documented special meaning
 BOOL = [("True", OK), ("False", OK)]
 NAMES = [("'x'", OK), ("'_a1'", OK), ("'A'", OK), ("''", NAME), ("'1a'", NAME), ("'a b'", NAME), ("'a-b'", NAME), ("'a\\n'", NAME),
-         ("' a'", NAME), ("'a.'", NAME), ("'a('", NAME), ("'(?P<x>'", NAME), ("1", T), ("True", T), ("1.5", T), ("['x']", T)]
+         ("' a'", NAME), ("'a.'", NAME), ("'caf\u00e9'", OK), ("'x\u0661'", OK), ("'x\u00b2'", NAME), ("'x\u0301'", NAME), ("'\u00e9'", NAME), ("'a('", NAME), ("'(?P<x>'", NAME), ("1", T), ("True", T), ("1.5", T), ("['x']", T)]
 NAMES_OPT = [("None", OK)] + NAMES
 INT0 = [("0", OK), ("1", OK), ("2", OK), ("-1", VAL), ("True", T), ("'1'", T), ("1.0", T), ("None", T)]
 INT0N = [("0", OK), ("1", OK), ("3", OK), ("None", OK), ("-1", VAL), ("True", T), ("'1'", T), ("1.5", T)]
